@@ -520,6 +520,7 @@ class Check(PropertyCheck):
     prop = "C11"
     design_ref = "§5 C11"
     level_text = ("Lean theorems held_while_intercepted / held_never_sent, resume_forwards_edited / resume_forwards_once, "
+                  "remote_close_marks_held / remote_close_kills_held (a source close that the layer treats as a kill), "
                   "kill_forwards_nothing_and_errors (_partial for the layers that consult the kill + _counterexample for TCP, "
                   "UDP, WebSocket, DNS answers), siblings_progress / sibling_exchange_while_held, and "
                   "waiting_only_while_intercepted / intercepted_hook_waits / resume_or_kill_releases about (i) a layer under "
@@ -532,8 +533,9 @@ class Check(PropertyCheck):
     level_note = ("trusted: Lean kernel; the layer model abstracts each protocol layer to 'one hook per message, then the "
                   "send-after-hook step' (HTTP's full stream machine is C03's model); a hook completion withheld by the "
                   "world stands for handle_hook blocked in wait_for_resume, which the async level exercises for real; "
-                  "messages are identified by payload markers at the destination; runs in which the source closes while "
-                  "the message is held are judged by the direct oracle only.  PARTIAL: kill_forwards_nothing_and_errors "
+                  "messages are identified by payload markers at the destination; a source close while the message is held is "
+                  "tied to the model when it is the last thing delivered before the verdict (what can still be delivered "
+                  "after a close depends on the transport; those orders are judged by the direct oracle only).  PARTIAL: kill_forwards_nothing_and_errors "
                   "holds only for HTTP and DNS queries; TCP/UDP/WebSocket/DNS-answer layers forward a killed flow's "
                   "message (findings F-C11a–d, counterexample theorem).")
     technique = "Lean 4 proof (induction over schedules, invariants) + world / virtual-time correspondence with the real layers and handle_hook"
@@ -657,7 +659,10 @@ class Check(PropertyCheck):
         if case["level"] == "async":
             return ["areset"] + [("hook %d" % op[1]) if op[0] == "hook" else op[0] for op in case["ops"]]
         p, bt = case["proto"], case["between"]
-        if "close" in bt: return None
+        # the source's close is tied when nothing else is delivered after it (what still can be delivered after a
+        # close depends on the transport, not on the layers under test)
+        if "close" in bt and bt[-1] != "close": return None
+        if "close" in bt and "reverse" in bt and p.startswith("udp"): return None   # the reverse datagram's destination closed
         kind = KIND[p]
         h2 = p.startswith("http2")
         lines = [f"reset {kind}", "a 0 1 1"]
@@ -671,6 +676,10 @@ class Check(PropertyCheck):
                 lines.append("a 0 3 5"); pending.append((0, 3, 5))
             elif b == "sibling":
                 lines += ["a 4 4 7", "c 4 0 0 7"]
+            elif b == "close":
+                # HTTP requests: the client's disconnect is found in the paused-event queue by check_killed;
+                # UDP: the association ends as a whole, the destination is gone with it
+                lines.append("x 0 %d %d" % (int(p in ("http1_req", "http2_req")), int(p == "udp_c2s")))
         lines.append("mark")
         act = case["action"]
         lines.append({"resume": "c 0 0 0 1", "edit": "c 0 0 0 2", "kill": "c 0 1 0 1"}[act])
@@ -714,7 +723,7 @@ class Check(PropertyCheck):
         honoured = KIND[case["proto"]] in ("http", "dnsReq")
         return {"hooks": [ids[m] for m in obs["hook_log"] if m in ids and ids[m] in (1, 2, 3)],
                 "sent_while_held": obs["during1"], "sends": sorted(sends),
-                "error": bool(case["action"] == "kill" and obs.get("killable") and honoured and obs["error"])}
+                "error": bool(honoured and obs["error"] and not obs["after_final"])}
 
     def classify(self, case, obs):
         if case["level"] == "world":
